@@ -163,3 +163,52 @@ Proof.
   destruct (String.eqb s path); [eauto|].
   destruct (find_free_enough desired (lookupn desired (counters st)) (used st)) as ((k & n) & E). rewrite E. eauto.
 Qed.
+
+(* ---------------- reserved names (package-level identifiers of the source package, and "kessoku") ---------------- *)
+(* NewTypeConverter marks these names as used before any import is added. They are modelled as pre-registered imports
+   of sentinel paths (a path no real import has), so that every theorem about tcinv applies unchanged. *)
+Definition sentinel (n : string) : string := String (Ascii.ascii_of_nat 0) n.
+Definition tc_reserved (rs : list string) : tc :=
+  {| imports := map (fun n => (sentinel n, n)) rs; used := map (fun n => (n, sentinel n)) rs; counters := [] |}.
+
+Lemma sentinel_inj a b : sentinel a = sentinel b -> a = b.
+Proof. unfold sentinel. intros H. inversion H. reflexivity. Qed.
+Lemma tc_reserved_inv rs : NoDup rs -> tcinv (tc_reserved rs).
+Proof.
+  intros ND. constructor; simpl.
+  - rewrite map_map. simpl. induction ND as [|x l Hn ND IH]; simpl; constructor; auto.
+    intro H. apply in_map_iff in H. destruct H as (y & E & Hy). apply sentinel_inj in E. subst. contradiction.
+  - rewrite map_map. simpl. rewrite map_id. exact ND.
+  - intros p n H. apply in_map_iff in H. destruct H as (x & E & Hx). inversion E; subst. apply in_map_iff. exists n. auto.
+  - intros n p H. apply in_map_iff in H. destruct H as (x & E & Hx). inversion E; subst. apply in_map_iff. exists n. auto.
+Qed.
+
+Lemma add_all_outs : forall reqs st outs st', tcinv st -> add_all st reqs = Some (outs, st') ->
+  Forall2 (fun (r : string * string) a => In (fst r, a) (imports st')) reqs outs.
+Proof.
+  induction reqs as [|[p d] r IH]; intros st outs st' I H; simpl in H.
+  - inversion H; subst. constructor.
+  - destruct (add_import st p d) as [[n st1]|] eqn:E; [|discriminate]. destruct (add_all st1 r) as [[ns st2]|] eqn:E2; [|discriminate].
+    inversion H; subst. destruct (add_import_inv _ _ _ _ _ I E) as (I1 & In1 & _).
+    destruct (add_all_inv r st1 ns st' I1 E2) as (_ & M2). constructor; [simpl; apply M2; exact In1 | eapply IH; eauto].
+Qed.
+
+(* no import is ever given a reserved name, and the invariants (hence consistency of aliases) hold from such a start *)
+Theorem reserved_never_allocated rs reqs outs st : NoDup rs -> add_all (tc_reserved rs) reqs = Some (outs, st) ->
+  (forall p d n, In (p, d) reqs -> p <> sentinel n) ->
+  tcinv st /\ forall a, In a outs -> ~ In a rs.
+Proof.
+  intros ND H NS. pose proof (tc_reserved_inv rs ND) as I0. destruct (add_all_inv reqs _ outs st I0 H) as (I & M). split; [exact I|].
+  intros a Ha Hr. pose proof (add_all_outs reqs _ outs st I0 H) as F.
+  assert (X : exists p d, In (p, d) reqs /\ In (p, a) (imports st)).
+  { clear - F Ha. induction F as [|[p d] y l l' Hy F IH]; [destruct Ha|]. destruct Ha as [<-|Ha]; [exists p, d; split; [left; auto|exact Hy]|].
+    destruct (IH Ha) as (p' & d' & Hin & Hi). exists p', d'. split; [right; exact Hin|exact Hi]. }
+  destruct X as (p & d & Hin & Hi).
+  assert (Hs : In (sentinel a, a) (imports st)) by (apply M; simpl; apply in_map_iff; exists a; auto).
+  pose proof (alias_injective st I p (sentinel a) a Hi Hs) as E. exact (NS p d a Hin E).
+Qed.
+
+(* correspondence with the real TypeConverter created for a package whose scope declares the reserved names *)
+Definition tcv_mismatches_reserved (cs : list (nat * (list string * list (string * string) * list string))) : list nat :=
+  flat_map (fun c => match c with (i, (rs, reqs, obs)) =>
+                       match add_all (tc_reserved rs) reqs with Some (o, _) => if strs_eqb o obs then [] else [i] | None => [i] end end) cs.
